@@ -5,6 +5,7 @@ import (
 	"math"
 	"math/big"
 	"strconv"
+	"strings"
 
 	"github.com/glycerine/zygomys/v9/zygo"
 	"zyverif/core"
@@ -157,7 +158,7 @@ func init() {
 		ID:    "C07",
 		Level: "exploration",
 		Rule: "every ordered pair of a 47-value boundary grid (int64 min/min+1/±2^53±1/±2/±1/0/max-1/max, uint64 0/1/2/2^53/2^63-1/2^63/max-1/max, float ±0/±subnormal/±1/2^53±/±2^63/±max/±Inf/NaN/fractions, chars 0/'a'/'b'/max rune) exhaustively, plus pairs of random 64-bit patterns (quick 4000, thorough 300000), each under < <= > >= == != + - * / mod; operands are injected as globals with exact bit patterns and, where a literal spelling exists, also written as literals. " +
-			"Oracle: math/big order for same-type pairs, float64 conversion for int/char vs float, NaN unordered from either side, trichotomy and (< a b)==(> b a) on the interpreter's own answers, Go wrap-around for int/uint + - *, exact-or-float division, float64 for mixed arithmetic, error for integer division/mod by zero; calls with three operands (a third int or float operand) must equal the nested binary calls (left fold). non-trivial = distinct pair involving at least one value within 2 of a 64-bit or 2^53 limit, NaN, Inf, or a signed zero",
+			"Oracle: math/big order for same-type pairs, float64 conversion for int/char vs float, NaN unordered from either side, trichotomy and (< a b)==(> b a) on the interpreter's own answers, Go wrap-around for int/uint + - *, exact-or-float division, float64 for mixed arithmetic, error for integer division/mod by zero; calls with three operands (a third int or float operand) must equal the nested binary calls (left fold); every grid value compared with itself (the same object on both sides, directly and through a second variable); ordinary comparisons must be unchanged after 12000 refused comparisons and after a script overwrote, through pointers, booleans that comparisons returned — in the same and in a fresh interpreter. non-trivial = distinct pair involving at least one value within 2 of a 64-bit or 2^53 limit, NaN, Inf, or a signed zero",
 		Assumptions: []string{
 			"uint64 is compared only with uint64 (no other pairing is named by the statement); char vs int is judged by exact integer order (a char is its code point), which trichotomy and the (< a b)==(> b a) clause require for all operands",
 			"float division by zero may yield the IEEE value or an error; MinInt64 / -1 may be Go's wrapped result or an error; char arithmetic results are not judged",
@@ -165,10 +166,10 @@ func init() {
 		},
 		NCases: func(c *core.Ctx) int {
 			n := len(c07Grid)
-			return n*n + thorN(c, 4000, 300000)
+			return n*n + thorN(c, 4000, 300000) + 2
 		},
 		Exhaustive: func(c *core.Ctx) bool { return false },
-		MustSee:    []string{"comparisons", "arithmetic", "nan_pairs", "limit_pairs", "div_by_zero", "literal_forms", "folds"},
+		MustSee:    []string{"comparisons", "arithmetic", "nan_pairs", "limit_pairs", "div_by_zero", "literal_forms", "folds", "same_object_comparisons", "refused_comparisons"},
 		Chunk:      400,
 		Run:        c07Run,
 	})
@@ -217,7 +218,74 @@ func c07fl(f float64) string {
 
 var c07env *zygo.Zlisp
 
+// c07LongRun: state that a comparison may leave behind must not change later comparisons. (1) thousands of
+// comparisons that are refused (operands that cannot be compared) followed by ordinary ones, in the same and
+// in a fresh interpreter; (2) a script changing, through a pointer, a boolean that a comparison returned.
+func c07LongRun(c *core.Ctx, k int) *core.Result {
+	res := &core.Result{Nontrivial: true, Input: fmt.Sprintf("long-run scenario %d", k)}
+	res.Hash = core.HashOf(res.Input)
+	env := zygo.NewZlisp()
+	env.StandardSetup()
+	probe := func(e *zygo.Zlisp, when string) bool {
+		for _, q := range [][2]string{{"(< 1 2)", "true"}, {"(> 1 2)", "false"}, {"(== 3 3.0)", "true"}, {"(!= 3 4)", "true"}, {"(<= 2 2)", "true"}, {"(>= 1 2)", "false"},
+			{"(hget (hash 5 \"five\" 6 \"six\") 6)", "\"six\""}, {"(== [1 [2 3]] [1 [2 3]])", "true"}, {"(== \"a\" \"b\")", "false"}, {"{1 < 2 and 2 < 3}", "true"}} {
+			o := sut.Eval(e, q[0]+"\n", 100000)
+			res.Evals++
+			got := "ERR"
+			if o.Panic != "" {
+				res.Violate("escaped-panic:"+o.Site, o.Panic, q[0])
+				return false
+			}
+			if o.Err == nil && o.Val != nil {
+				got = o.Val.SexpString(nil)
+			}
+			if got != q[1] {
+				res.Violate("comparison-changed-by-earlier-comparisons", fmt.Sprintf("%s: %s must give %s, got %s (%v)", when, q[0], q[1], got, o.Err), res.Input)
+				return false
+			}
+		}
+		return true
+	}
+	if !probe(env, "at the start") {
+		return res
+	}
+	switch k {
+	case 0:
+		n := 12000
+		for j := 0; j < n; j++ {
+			t := []string{"(< 1 \"s\")", "(== 2.5 \"s\")", "(< [1 [2 \"x\"]] [1 [2 3]])", "(< 1 12ULL)", "(> (hash a: 1) 3)", "(< (quote a) 1)"}[j%6]
+			o := sut.Eval(env, t+"\n", 100000)
+			res.Evals++
+			res.Ev("refused_comparisons", 1)
+			if o.Panic != "" {
+				res.Violate("escaped-panic:"+o.Site, o.Panic, t)
+				return res
+			}
+		}
+		if probe(env, fmt.Sprintf("after %d refused comparisons", n)) {
+			fresh := zygo.NewZlisp()
+			fresh.StandardSetup()
+			probe(fresh, fmt.Sprintf("in a fresh interpreter after %d refused comparisons in another one", n))
+		}
+	case 1:
+		for _, t := range []string{"(def ok (< 1 2)) (def pok (& ok)) (derefSet pok false) ok", "(def no (> 1 2)) (def pno (& no)) (derefSet pno true) no", "(def eq (== 1 1)) (derefSet (& eq) false)", "(def t1 (and true (< 1 2))) (derefSet (& t1) false)", "(def arr [(< 1 2) (> 1 2)]) (aset arr 0 false) (aset arr 1 true)"} {
+			sut.Eval(env, t+"\n", 100000)
+			res.Evals++
+			res.Ev("refused_comparisons", 1)
+		}
+		if probe(env, "after a script overwrote, through pointers, booleans that comparisons had returned") {
+			fresh := zygo.NewZlisp()
+			fresh.StandardSetup()
+			probe(fresh, "in a fresh interpreter after another one overwrote comparison results through pointers")
+		}
+	}
+	return res
+}
+
 func c07Run(c *core.Ctx, i int) *core.Result {
+	if base := len(c07Grid)*len(c07Grid) + thorN(c, 4000, 300000); i >= base {
+		return c07LongRun(c, i-base)
+	}
 	a, b, fromGrid := c07Pair(c, i)
 	res := &core.Result{Input: fmt.Sprintf("a=%v b=%v", a, b)}
 	res.Hash = core.HashOf(res.Input)
@@ -246,6 +314,24 @@ func c07Run(c *core.Ctx, i int) *core.Result {
 			return "ERR", o
 		}
 		return c07Show(o.Val), o
+	}
+	// the same object on both sides: an operand compared with itself (NaN is unequal to itself too)
+	if fromGrid && i%len(c07Grid) == 0 {
+		for _, op := range []string{"<", "<=", ">", ">=", "==", "!="} {
+			want := op == "<=" || op == ">=" || op == "=="
+			if a.isNaN() {
+				want = op == "!="
+			}
+			for _, text := range []string{"(" + op + " va va)\n", "(let [vsame va] (" + op + " vsame vsame))\n"} {
+				g, o := eval(text)
+				res.Ev("same_object_comparisons", 1)
+				if g == "PANIC" {
+					res.Violate("escaped-panic:"+o.Site, o.Panic, text)
+				} else if g != fmt.Sprint(want) {
+					res.Violate("compare:same-object:"+a.kind+":"+op, fmt.Sprintf("%s with va = %v must be %v, got %s", strings.TrimSpace(text), a, want, g), text+" with "+res.Input)
+				}
+			}
+		}
 	}
 	typeKey := a.kind + "/" + b.kind
 	nan := a.isNaN() || b.isNaN()
